@@ -164,7 +164,7 @@ def check_reuse(env, acc):
 def run(tier, seed):
     env = Env(seed)
     fam = emulator_family(env, tier)
-    maxph = {2: 3, 3: 3, 4: 2} if tier == "quick" else {2: 5, 3: 4, 4: 3, 5: 2}
+    maxph = {2: 5, 3: 3, 4: 2} if tier == "quick" else {2: 5, 3: 4, 4: 3, 5: 2}
 
     def shard_fn(recipes):
         acc = kernel.Acc()
